@@ -22,13 +22,47 @@ TEMPLATES = {
                      '        mux_signal: "y",\n    },\n    signal y {\n        endianess: "big",\n    },\n}\n'
                      'impl can for B as Bee {\n    id: 11,\n    bus: "b1",\n    period: 20,\n    mask: 18446744073709551615,\n'
                      '    uid: 9007199254740993,\n    gain: 0.10000000000000002,\n    offset: -40,\n'
-                     '    signal z {\n        scale: 1.0000000000000002,\n        key: 123456789012345678,\n    },\n}\n',
+                     '    signal z {\n        scale: 1.0000000000000002,\n        key: 123456789012345678,\n    },\n}\n'
+                     # extension fields and signal blocks interleaved (the grammar allows any order)
+                     'impl can for A as Mixed {\n    id: 17,\n    signal x {\n        mux_count: 2,\n    },\n    bus: "aux",\n'
+                     '    signal y {\n        endianess: "little",\n    },\n    period: 5,\n}\n',
     "services": V3 + 'struct Req { a @0: u8, }\nstruct Rsp { b @0: [u8, 3], }\n'
                      'service Svc @3 {\n    method get(Req) @0 returns Rsp,\n    method put(Rsp) @1 returns Req,\n}\n'
                      'service Other @4 {\n    method m(Req) @0 returns Req,\n}\n'
                      'device Dev {\n    services: [Svc],\n}\n',
     "minimal": V3 + 'struct S { a @0: u1, }\n',
 }
+
+
+# what the source of a template declares for its (non-default) bindings, written by hand next to the template text:
+# (name, protocol, struct, {extension field: str(value)}, [(signal block, {field: str(value)})])
+DECLARED_IN_SOURCE = {
+    "bindings": [
+        ("A", "can", "A", {"id": "10", "device": "ecu"},
+         [("x", {"mux_count": "4", "mux_signal": "y"}), ("y", {"endianess": "big"})]),
+        ("Bee", "can", "B", {"id": "11", "bus": "b1", "period": "20", "mask": "18446744073709551615",
+                             "uid": "9007199254740993", "gain": "0.10000000000000002", "offset": "-40"},
+         [("z", {"scale": "1.0000000000000002", "key": "123456789012345678"})]),
+        ("Mixed", "can", "A", {"id": "17", "bus": "aux", "period": "5"},
+         [("x", {"mux_count": "2"}), ("y", {"endianess": "little"})]),
+    ],
+}
+
+
+def source_mismatch(tname, fcp):
+    """None, or how the parsed tree differs from what the template's source declares for its bindings."""
+    exp = DECLARED_IN_SOURCE.get(tname)
+    if exp is None:
+        return None
+    got = [(i.name, i.protocol, i.type, {k: str(v) for k, v in i.fields.items()},
+            [(g.name, {k: str(v) for k, v in g.fields.items()}) for g in i.signals])
+           for i in fcp.impls if i.protocol != "default"]
+    if got != exp:
+        for a, b in zip(got, exp):
+            if a != b:
+                return f"binding {b[0]}: source declares fields {b[3]} signals {b[4]}, tree has fields {a[3]} signals {a[4]}"
+        return f"source declares {len(exp)} bindings, tree has {len(got)}"
+    return None
 
 
 COLLIDING = V3 + "".join(f"struct {n} {{ code @3: u16, other @1: i5, }}\n" for n in
@@ -259,6 +293,20 @@ def c12_case(args):
     prime(COLLIDING, ("serde", "layout"))
     fcp = parse(TEMPLATES[tname])
     declared = declared_of(fcp)
+    if strlen == (2, 0, 3, 1) or True:
+        ob0 = f"{tname}|tree-holds-what-the-source-declares"
+        res["obligations"].append(ob0)
+        bad = source_mismatch(tname, fcp)
+        if bad:
+            from ..common import write_replay, run_replay
+            path = write_replay("C12", {"kind": "reflection_source", "template": tname, "property": "C12", "what": bad})
+            okr, text = run_replay(path)
+            if okr:
+                res["violations"].append({"replay": path, "ob": ob0, "what": f"{bad} :: {text[-200:]}"})
+            else:
+                res["inconclusive"].append(f"{ob0}: {bad}: replay did not reproduce ({text[-120:]})")
+            return res
+        res["discharged"] += 1
     same_object_history(fcp)
     P = Patcher(strlen=strlen)
     P.patch(fcp)
